@@ -30,6 +30,7 @@ type PropSpec struct {
 	Assumptions []string `json:"assumptions,omitempty"`
 	Explanation string   `json:"explanation,omitempty"`
 	MinObs      int      `json:"min_obligations,omitempty"` // vacuity guard: fewer obligations is an infrastructure error
+	PanicKinds  bool     `json:"panic_kinds,omitempty"`     // also claim the panic-freedom obligations of the tagged functions
 }
 
 type Harness struct {
@@ -70,6 +71,13 @@ func verifDir() string {
 		return d
 	}
 	return "/verif"
+}
+
+func evidenceDir() string {
+	if d := os.Getenv("VERIF_EVIDENCE_DIR"); d != "" {
+		return d
+	}
+	return filepath.Join(verifDir(), "evidence")
 }
 
 func loadProps() (map[string]*PropSpec, error) {
@@ -125,6 +133,9 @@ func hasProp(c *Contract, id string) bool {
 	}
 	return false
 }
+
+var panicOnlyKinds = map[string]bool{"index": true, "slice": true, "div": true, "extern-requires": true, "panic": true,
+	"make": true, "shift": true, "nil-map": true}
 
 var panicKinds = map[string]bool{"index": true, "slice": true, "div": true, "extern-requires": true, "panic": true,
 	"make": true, "shift": true, "nil-map": true, "requires": true}
@@ -261,7 +272,9 @@ func propMain(args []string, o RunOpts, tier string) int {
 			if !ob.Strong {
 				continue // nil-dereference and type-assertion sites are reported but not claimed
 			}
-			_ = sels[i].sweep // every strong kind counts, also in swept functions (type invariants, auto invariants)
+			if !sels[i].sweep && !ps.PanicKinds && panicOnlyKinds[ob.Kind] {
+				continue // panic-freedom of this function is not part of this property's claim
+			}
 			claimed = append(claimed, ob)
 		}
 	}
@@ -310,7 +323,7 @@ func propMain(args []string, o RunOpts, tier string) int {
 			return 2
 		}
 	}
-	replayDir := filepath.Join(verifDir(), "evidence", "replays", id)
+	replayDir := filepath.Join(evidenceDir(), "replays", id)
 	os.MkdirAll(replayDir, 0o755)
 	for _, ob := range failing {
 		violations++
@@ -421,9 +434,9 @@ func propMain(args []string, o RunOpts, tier string) int {
 	}
 	ev := Evidence{PropertyID: id, Tier: tier, Seed: seed, Level: level, Coverage: cov, Assumptions: assumptions,
 		WallS: round3(time.Since(t0).Seconds()), Violations: violations}
-	os.MkdirAll(filepath.Join(verifDir(), "evidence"), 0o755)
+	os.MkdirAll(evidenceDir(), 0o755)
 	b, _ := json.MarshalIndent(ev, "", " ")
-	os.WriteFile(filepath.Join(verifDir(), "evidence", id+".json"), b, 0o644)
+	os.WriteFile(filepath.Join(evidenceDir(), id+".json"), b, 0o644)
 
 	fmt.Printf("property %s: %d obligations, %d discharged, %d known findings, %d violations (%.1fs)\n", id, len(claimed), discharged, len(knownHit), violations, time.Since(t0).Seconds())
 	if violations > 0 {
